@@ -20,8 +20,8 @@ theorem mHandlesOf_bodyOK : ∀ (op : Host) (nh : Nat), BodyOK op → mHandlesOf
   | .addF _ _ _, _, _ => rfl
   | .addR _ _ _, _, _ => rfl
   | .ifc _ _ _ _ body, nh, h => by simp [mHandlesOf, mHandlesOf_bodyOK body nh h]
-  | .loop _ _ _ body, nh, h => by simp [mHandlesOf, mHandlesOf_bodyOK body _ h]
-  | .loopBody _ _ _ body, nh, h => by simp [mHandlesOf, mHandlesOf_bodyOK body _ h]
+  | .loop _ _ _ _ body, nh, h => by simp [mHandlesOf, mHandlesOf_bodyOK body _ h]
+  | .loopBody _ _ _ _ body, nh, h => by simp [mHandlesOf, mHandlesOf_bodyOK body _ h]
   | .foreach _ _ body, nh, h => by simp [mHandlesOf, mHandlesOf_bodyOK body _ h]
   | .loopUntil _ body _ _ cl, nh, h => by
     simp [mHandlesOf, mHandlesOf_bodyOK body _ h.1, mHandlesOf_bodyOK cl _ h.2]
